@@ -133,7 +133,9 @@ Proof. exact len_exact. Qed.
 Print Assumptions C19_len_exact.
 
 (* histories that load / unload whole keys of a universe of distinct key objects (every component has its own id, top-level keys are
-   primary keys): what is loaded is exactly the primary + subkeys of the keys that are currently in (live_after = plain add / remove) *)
+   primary keys): what is loaded is exactly the primary + subkeys of the keys that are currently in (live_after = plain add / remove).
+   Only this reading aid is about whole keys: every other theorem here holds for arbitrary histories, also those that load / unload
+   a subkey on its own (C19_fingerprints_exact, C19_abs_reachable, C19_load_result_is_indexed ...) *)
 Theorem C19_whole_key_histories : forall U ops, universe_ok U -> (forall o, In o ops -> In (key_of o) U) ->
   forall x, In x (loaded_after ops) <-> exists k, In k (live_after ops) /\ In x (comps k).
 Proof. exact whole_key_histories. Qed.
@@ -202,3 +204,42 @@ Proof. exact repaired_names_literal. Qed.
 Example C19_repaired_grouped_id_found :
   unspaced id_dead_beef = id_deadbeef /\ get_key (run isort [Load keyH]) id_dead_beef = Some (fst keyH).
 Proof. exact repaired_grouped_id_found. Qed.
+
+(* load() (commit 7e98898): whatever happened before -- also when a subkey was unloaded on its own -- every fingerprint load(k)
+   returns (the key's and its subkeys') is reported by fingerprints() afterwards, is `in` the keyring and selects a loaded key.
+   objects_consistent: one label (id()) names one key object with one set of data throughout the history. *)
+Theorem C19_load_result_is_indexed : forall sort ops k f, objects_consistent (ops ++ [Load k]) -> In f (load_result k) ->
+  In f (fingerprints (run sort (ops ++ [Load k])) None None).
+Proof. exact load_result_is_indexed. Qed.
+Print Assumptions C19_load_result_is_indexed.
+Example C19_load_result_premise :
+  objects_consistent ([Load keyK; Unload (subS, [])] ++ [Load keyK]) /\ In (kfp subS) (load_result keyK).
+Proof. split; [exact reload_history_consistent|vm_compute; auto]. Qed.
+
+Theorem C19_load_result_loaded : forall ops k x, objects_consistent (ops ++ [Load k]) -> In x (comps k) ->
+  In x (loaded_after (ops ++ [Load k])).
+Proof. exact load_result_loaded. Qed.
+Print Assumptions C19_load_result_loaded.
+
+Theorem C19_load_result_selects : forall sort, (forall l, Permutation l (sort l)) -> forall ops k f,
+  objects_consistent (ops ++ [Load k]) -> In f (load_result k) ->
+  containsS f (lays (run sort (ops ++ [Load k]))) = true /\
+  exists j, get_key (run sort (ops ++ [Load k])) f = Some j /\ In j (loaded_after (ops ++ [Load k])) /\ selects j f.
+Proof. exact load_result_selects. Qed.
+Print Assumptions C19_load_result_selects.
+
+(* the _add_key of before commit 7e98898 (subkeys visited only when the key itself was new; run_old_addkey) is refuted:
+   load K, unload sub(K), load K -- load reports sub(K)'s fingerprint, the keyring neither lists nor selects it
+   (that keyring did follow the old reading of "loaded", loaded_after_old) *)
+Theorem C19_load_result_is_indexed_old_refuted :
+  objects_consistent reload_history /\ In (kfp subS) (load_result keyK) /\
+  ~ In (kfp subS) (fingerprints (run_old_addkey isort reload_history) None None) /\
+  get_key (run_old_addkey isort reload_history) (kfp subS) = None /\
+  keys (run_old_addkey isort reload_history) = loaded_after_old reload_history.
+Proof. exact load_result_is_indexed_old_refuted. Qed.
+Print Assumptions C19_load_result_is_indexed_old_refuted.
+
+Example C19_reload_restores_subkey :
+  In (kfp subS) (fingerprints (run isort reload_history) None None) /\
+  get_key (run isort reload_history) (kfp subS) = Some subS.
+Proof. exact reload_restores_subkey. Qed.
